@@ -505,6 +505,9 @@ const c24Day0 = int64(1704844800) // 2024-01-10 00:00:00 UTC
 
 var c24DayPool = []int64{c24Day0, c24Day0 + 86400, c24Day0 + 2*86400, c24Day0 + 22*86400 /* 2024-02-01 */, c24Day0 + 356*86400 /* 2024-12-31 */, c24Day0 + 357*86400 /* 2025-01-01 */}
 
+// tolerance (seconds) of the case being generated: lets c24GenDay place days on the completeness boundary
+var c24Tol int64
+
 var c24Slots = []int{0, 0, 1, 1, 2, 3, 12, 71, 143, 144, 145, 216, 275, 284, 285, 286, 286, 287, 287}
 
 func c24Pid(r *Rand, tier string) int {
@@ -517,6 +520,31 @@ func c24Pid(r *Rand, tier string) int {
 // c24GenDay generates block offsets (strictly increasing) of one day
 func c24GenDay(r *Rand, tier string) []int64 {
 	set := map[int64]bool{}
+	if c24Tol >= 1 && c24Tol < 43000 && r.Chance(1, 6) {
+		// a day ON the completeness boundary of the case's tolerance (or one second off it): the last block
+		// plus the block duration ends exactly `tolerance` before the end of the day, the first block starts
+		// exactly `tolerance` after its start
+		dur := Pick(r, []int64{300, 300, 299, 600})
+		last := 86399 - c24Tol - dur + Pick(r, []int64{-1, 0, 0, 0, 1})
+		prev := last - dur
+		first := c24Tol + Pick(r, []int64{-1, 0, 0, 0, 1})
+		if first < 0 {
+			first = 0
+		}
+		if prev > first && last < 86400 {
+			set[first], set[prev], set[last] = true, true, true
+			if r.Bool() {
+				set[first+(prev-first)/2] = true
+			}
+			var offs []int64
+			for o := range set {
+				offs = append(offs, o)
+			}
+			sort.Slice(offs, func(i, j int) bool { return offs[i] < offs[j] })
+			return offs
+		}
+		set = map[int64]bool{}
+	}
 	switch k := r.Intn(20); {
 	case k == 0 && tier == "thorough":
 		// a full day of 288 blocks, possibly with a gap
@@ -569,6 +597,7 @@ func c24Gen(r *Rand, tier string) []Case {
 	for i := 0; i < n; i++ {
 		ow, dry := r.Bool(), r.Chance(1, 4)
 		tol := Pick(r, tols)
+		c24Tol = tol / 1e9
 		var src, dst c24DB
 		nif := 1 + r.Intn(3)
 		perm := append([]string{}, ifPool...)
@@ -797,7 +826,7 @@ func c24Gen(r *Rand, tier string) []Case {
 func init() {
 	register(&Prop{
 		ID: "C24",
-		Rule: "seeded pairs of source/destination databases written with the real goDB.DBWriter (1-3 source interfaces of a pool of 5, 0-4 days per interface incl. month and year boundaries, per day 1-6 blocks on slots spread over the day — start, middle, end, off-grid, 86399 — or (thorough) full 288-block days with a gap; the destination shares / partly shares / lacks each day with identical, overlapping or disjoint block timestamps and own days and interfaces; payloads are a function of a payload id, 1 in 60 a 1500-flow block) x overwrite x dry-run x tolerance in {<=0 (default), 0.5 s, 1 s, 150 s, 300 s, 301 s, 15 min, 1 h, 6 h, 12 h, 86399 s, 24 h, 25 h} (which makes the same sparse days complete or partial) x interface selection {all, subset with padded / duplicate / blank names, unknown name (malformed), blank only} x encoders {lz4, zstd, null} per side, plus missing source / missing destination / empty source. The real MergeDatabases runs twice; the decoded destination (timestamps + payload id recognised from a digest of the 8 decoded columns, block/day/dir-name metadata), the source tree hash, the destination tree hash (dry-run) and both summaries are compared with the Lean model. Non-trivial: a selected interface has a day on both sides with at least one common block timestamp. Distinct = distinct case lines.",
+		Rule: "seeded pairs of source/destination databases written with the real goDB.DBWriter (1-3 source interfaces of a pool of 5, 0-4 days per interface incl. month and year boundaries, per day 1-6 blocks on slots spread over the day — start, middle, end, off-grid, 86399 —, 1 in 6 days placed exactly on (or one second off) the completeness boundary of the case's tolerance at both ends, or (thorough) full 288-block days with a gap; the destination shares / partly shares / lacks each day with identical, overlapping or disjoint block timestamps and own days and interfaces; payloads are a function of a payload id, 1 in 60 a 1500-flow block) x overwrite x dry-run x tolerance in {<=0 (default), 0.5 s, 1 s, 150 s, 300 s, 301 s, 15 min, 1 h, 6 h, 12 h, 86399 s, 24 h, 25 h} (which makes the same sparse days complete or partial) x interface selection {all, subset with padded / duplicate / blank names, unknown name (malformed), blank only} x encoders {lz4, zstd, null} per side, plus missing source / missing destination / empty source. The real MergeDatabases runs twice; the decoded destination (timestamps + payload id recognised from a digest of the 8 decoded columns, block/day/dir-name metadata), the source tree hash, the destination tree hash (dry-run) and both summaries are compared with the Lean model. Non-trivial: a selected interface has a day on both sides with at least one common block timestamp. Distinct = distinct case lines.",
 		Gen: c24Gen,
 		Run: c24Run,
 		Init: func(string) error {
